@@ -6,16 +6,16 @@ CONSTANTS
   MaxSeq = 3
   Steps = {0, 1}
   Wants = {2, 4}
-  Timeouts = {2}
+  Timeouts = {3}
   UpdCap = 10
-  MaxTime = 4
+  MaxTime = 5
   Strategy = "first-working"
   Rtt0 <- GRtt
   MaxFlips = 0
   FixNotify = FALSE
   FixTimer = FALSE
   FixSetHead = FALSE
-  Depth = 24
+  Depth = 26
   Mode = "cex"
 SPECIFICATION GenSpec
 VIEW View
